@@ -45,10 +45,14 @@ P = dict(
           "all but top, all but bit 0, all full bytes below the last byte, only the last byte, a fixed pseudo-random pattern and its "
           "complement, low 64, above 64, low 32, above 32): build a through 8 construction routes (several transiently fill every storage "
           "bit); every single-bit operation (set(pos), set(pos,val), reset(pos), flip(pos), unchecked_*, b[i]=bool, b[i]=b[j], b[i].flip()) "
-          "at every position; set(), reset(), flip(), ~, copy (each also twice in a row); &=, |=, ^=, &, |, ^ with every value b of the "
-          "value set; constructor from unsigned long long incl. bits above N; string_view and char const* constructors (lengths N, N-1, "
+          "at every position; chained expressions (set().reset(p), reset().set(p), flip().flip(p), set(p).flip(q), reset(p).set(q,v), "
+          "flip(p).reset(q), (b[p]=v).flip(), b[p].flip()=v, b[p]=b[q]=v; every modifier result is bound as a forwarding reference and must "
+          "be an E& / proxy& designating the object itself); set(), reset(), flip(), ~, copy and the same-object forms b&=b, b|=b, b^=b, "
+          "b&b, b|b, b^b (each also twice in a row; b==b and b!=b are observers); &=, |=, ^=, &, |, ^ with every value b of the "
+          "value set, chained (b&=x).flip(), (b|=x)^=x, (b^=x)&=x with every (widths 3..9: every 4th) value; constructor from unsigned long long incl. bits above N; string_view and char const* constructors (lengths N, N-1, "
           "N/2, 1, 0, and in a separate case N+1, N+3; pos 0/2 with junk before and after; n = rest / npos / > rest / < rest; default, "
-          "custom and swapped zero/one characters; every defaulted-argument call form; char and wchar_t). Random part: seeded histories "
+          "custom, swapped and NUL-as-zero / NUL-as-one characters; every defaulted-argument call form; char and wchar_t; the char const* "
+          "form with explicit n also on exact-size blocks WITHOUT terminator, so measuring the string instead of taking n characters reads out of the block). Random part: seeded histories "
           "of 64 (thorough: 1 in 8 of 256) steps over all of these operations, 150 (thorough 3000) per subject. Distinct = distinct hash of (subject, value before, operation, arguments); "
           "non-trivial = every mutating step and every construction of a non-zero value."),
     units=_units(),
